@@ -58,6 +58,7 @@ type ctx struct {
 	funcs  map[string]*closure // local identifiers bound to function literals (params or locals)
 	alias  map[string][]string // local identifiers aliasing a map-typed receiver field
 	fparam map[string]bool     // func-typed parameters that are not bound
+	brk    []string            // enclosing breakable constructs, innermost last: "loop" / "switch"
 }
 
 type closure struct {
@@ -529,6 +530,9 @@ func (c *ctx) closureBody(cl *closure) []instr {
 			}
 		}
 	}
+	saved := cl.cx.brk
+	cl.cx.brk = nil
+	defer func() { cl.cx.brk = saved }()
 	return stripFinalReturn(cl.cx.block(cl.lit.Body.List))
 }
 
@@ -547,10 +551,73 @@ func (c *ctx) emitClosure(cl *closure, hint string) string {
 
 func (c *ctx) block(stmts []ast.Stmt) []instr {
 	var out []instr
-	for _, s := range stmts {
-		out = append(out, c.stmt(s)...)
+	for i, s := range stmts {
+		is := c.stmt(s)
+		if hasSkip(is) {
+			// a path through this statement ends in continue / break: the statements that follow
+			// belong to the other paths only
+			rest := c.block(stmts[i+1:])
+			return append(out, absorb(is, rest)...)
+		}
+		out = append(out, is...)
 	}
 	return out
+}
+
+// continue / break (of the innermost for loop) are translated as "skip to the end of the loop
+// body": exact for continue; for break an over-approximation (the loop may also go on), which is
+// sound for the lockset analysis.  A Skip marker ends its path; absorb pushes the code that follows
+// an if-statement into the branches that do not skip.
+func hasSkip(is []instr) bool {
+	for _, i := range is {
+		if i.op == "Skip" {
+			return true
+		}
+		if i.op == "If" && (hasSkip(i.a) || hasSkip(i.b)) {
+			return true
+		}
+	}
+	return false
+}
+
+func absorb(is []instr, k []instr) []instr {
+	for n, i := range is {
+		if i.op == "Skip" {
+			return append(append([]instr{}, is[:n]...), i)
+		}
+		if i.op == "If" && (hasSkip(i.a) || hasSkip(i.b)) {
+			tail := append(append([]instr{}, is[n+1:]...), k...)
+			out := append([]instr{}, is[:n]...)
+			return append(out, instr{op: "If", a: absorb(i.a, tail), b: absorb(i.b, tail)})
+		}
+	}
+	return append(append([]instr{}, is...), k...)
+}
+
+func stripSkips(is []instr) []instr {
+	var out []instr
+	for _, i := range is {
+		switch i.op {
+		case "Skip":
+			continue
+		case "If":
+			i.a, i.b = stripSkips(i.a), stripSkips(i.b)
+		}
+		out = append(out, i)
+	}
+	return out
+}
+
+func (c *ctx) loopBody(stmts []ast.Stmt) []instr {
+	c.brk = append(c.brk, "loop")
+	defer func() { c.brk = c.brk[:len(c.brk)-1] }()
+	return stripSkips(c.block(stmts))
+}
+
+func (c *ctx) inSwitch(f func() []instr) []instr {
+	c.brk = append(c.brk, "switch")
+	defer func() { c.brk = c.brk[:len(c.brk)-1] }()
+	return f()
 }
 
 func (c *ctx) lhs(e ast.Expr) []instr {
@@ -676,7 +743,7 @@ func (c *ctx) stmt(s ast.Stmt) []instr {
 	case *ast.ForStmt:
 		out := c.stmt(x.Init)
 		body := c.expr(x.Cond)
-		body = append(body, c.block(x.Body.List)...)
+		body = append(body, c.loopBody(x.Body.List)...)
 		body = append(body, c.stmt(x.Post)...)
 		out = append(out, instr{op: "Loop", a: body})
 		return append(out, c.expr(x.Cond)...)
@@ -694,16 +761,16 @@ func (c *ctx) stmt(s ast.Stmt) []instr {
 				body = append(body, c.lhs(x.Value)...)
 			}
 		}
-		body = append(body, c.block(x.Body.List)...)
+		body = append(body, c.loopBody(x.Body.List)...)
 		return append(out, instr{op: "Loop", a: body})
 	case *ast.SwitchStmt:
 		out := c.stmt(x.Init)
 		out = append(out, c.expr(x.Tag)...)
-		return append(out, c.cases(x.Body.List)...)
+		return append(out, c.inSwitch(func() []instr { return c.cases(x.Body.List) })...)
 	case *ast.TypeSwitchStmt:
 		out := c.stmt(x.Init)
 		out = append(out, c.stmt(x.Assign)...)
-		return append(out, c.cases(x.Body.List)...)
+		return append(out, c.inSwitch(func() []instr { return c.cases(x.Body.List) })...)
 	case *ast.SelectStmt:
 		var out []instr
 		var bodies [][]instr
@@ -725,12 +792,15 @@ func (c *ctx) stmt(s ast.Stmt) []instr {
 				}
 			}
 			out = append(out, pre...)
-			bodies = append(bodies, c.block(cl.Body))
+			bodies = append(bodies, c.inSwitch(func() []instr { return c.block(cl.Body) }))
 		}
 		out = append(out, instr{op: "Chan", chop: "ChSelect", arg: "select"})
 		return append(out, choice(bodies)...)
 	case *ast.BranchStmt:
-		failf(g.pos(s), "%s statement (break / continue / goto / fallthrough are not modelled)", x.Tok)
+		if (x.Tok == token.CONTINUE || x.Tok == token.BREAK) && x.Label == nil && len(c.brk) > 0 && c.brk[len(c.brk)-1] == "loop" {
+			return []instr{{op: "Skip"}}
+		}
+		failf(g.pos(s), "%s statement (only unlabelled break / continue directly inside a for loop are modelled)", x.Tok)
 	case *ast.LabeledStmt:
 		failf(g.pos(s), "labelled statement")
 	}
